@@ -128,6 +128,18 @@ Definition answer_sound (expected : blockhash) (r : rreq) (a : ranswer) : bool :
   | _, _ => false
   end.
 
+(* the node HOLDS the block through dissemination: for every slice of the expected block at least DATA_SHREDS distinct
+   shreds under the expected slice root were delivered (hash-free ground truth; with C14_responder_complete such a
+   node answers every in-range request positively) *)
+Definition held_distinct (held : list bshred) (s root : N) : N :=
+  N.of_nat (length (nodup N.eq_dec (map b_index (filter (fun x => (b_slice x =? s) && (b_root x =? root)) held)))).
+Definition block_held (expected : blockhash) (held : list bshred) : bool :=
+  match expected with
+  | [] => false
+  | _ => forallb (fun sr => DATA_SHREDS <=? held_distinct held (fst sr) (snd sr))
+                 (combine (map N.of_nat (seq 0 (length expected))) expected)
+  end.
+
 Definition run_responder (slot : N) (ct : content) (expected : blockhash) (held_repair held : list bshred) (qs : list qstep) : list (N * N) :=
   (* shreds filed through repair under the block's own hash first, then the dissemination *)
   let sd0 := fold_left (fun sd s => fst (fst (bs_step true ct slot sd (BRepair 1 expected s)))) held_repair sd_empty in
@@ -145,7 +157,12 @@ Definition run_responder (slot : N) (ct : content) (expected : blockhash) (held_
                                 && match q_ans q with
                                    | ANone => negb (q_known q)
                                    | ASome a => answer_sound expected (q_req q) a
-                                   end in
+                                   end
+                                (* completeness: a request the specification answers positively about a block the node
+                                   holds must not be refused *)
+                                && negb (block_held expected held
+                                         && match m with ASome ANack | ANone => false | ASome _ => true end
+                                         && match q_ans q with ASome ANack => true | _ => false end) in
                  let f := N.lor (if model_ok then 0 else 1) (if prop_ok then 0 else 2) in
                  (i + 1, if f =? 0 then res else res ++ [(i, f)]))
               qs (0, []) in
